@@ -28,6 +28,7 @@ type assertFail struct{ label string }
 type diverged struct{ msg string }
 
 var padded int
+var lastPadded bool
 
 var (
 	cur      *Case
@@ -57,8 +58,10 @@ func next(tag string) (int64, string) {
 		// with zero for choices the engine never made. Any assertion that then fails is a real failure on the
 		// real code with concrete inputs; a violated assumption still ends the replay as DIVERGED.
 		padded++
+		lastPadded = true
 		return 0, n
 	}
+	lastPadded = false
 	switch s {
 	case "true":
 		return 1, n
@@ -93,6 +96,9 @@ func IntIn(tag string, lo, hi int) int {
 		return lo
 	}
 	v, n := next(tag)
+	if lastPadded {
+		return lo
+	}
 	if int(v) < lo || int(v) > hi {
 		panic(diverged{"value out of range for " + n})
 	}
